@@ -25,7 +25,10 @@ type c04Ending struct {
 	err  error
 }
 
-var c04Endings = []c04Ending{{"eof", nil}, {"unexpected-eof", io.ErrUnexpectedEOF}, {"transport-error", errTransport}}
+var c04Endings = []c04Ending{{"eof", nil}, {"unexpected-eof", io.ErrUnexpectedEOF}, {"transport-error", errTransport},
+	// what net/http reports when the peer resets an HTTP/2 stream
+	{"rst-no-error", errors.New("stream error: stream ID 5; NO_ERROR; received from peer")},
+	{"rst-cancel", errors.New("stream error: stream ID 5; CANCEL; received from peer")}}
 
 // frameBoundaries returns the set of offsets at which an enveloped body has
 // delivered a whole number of frames.
@@ -89,14 +92,31 @@ func c04Response(run *ev.Run, rec *recorded, key string) {
 	if hasHTTPTrailers {
 		trailerModes = []bool{true, false}
 	}
+	// For the protocols whose terminator travels in the body, HTTP trailers are
+	// not part of the protocol: a proxy may add some (even a Grpc-Status), and
+	// they must not stand in for the missing terminator.
+	spurious := (rec.Proto == "grpcweb" || (rec.Proto == "connect" && rec.Kind != svc.Unary)) && !inHeaders
+	if spurious {
+		trailerModes = []bool{true, false}
+	}
 	for k := 0; k <= len(body); k++ {
 		for _, e := range c04Endings {
 			for _, withTr := range trailerModes {
 				ckey := fmt.Sprintf("%s/resp/k=%d/%s/trailers=%v", key, k, e.name, withTr)
 				var got *svc.CLog
 				ok, dump := watchdog(30*time.Second, func() {
+					if spurious {
+						if !withTr && (k%3 != 0 && k != len(body)) {
+							return // thin out: the spurious-trailer variant at every third offset
+						}
+						got = c04ReplaySpurious(rec, &wire.ScriptedBody{Data: body[:k], FinalErr: e.err}, !withTr)
+						return
+					}
 					got, _ = rec.replayResponse(&wire.ScriptedBody{Data: body[:k], FinalErr: e.err}, withTr)
 				})
+				if ok && got == nil {
+					continue
+				}
 				pos := "mid-frame"
 				if _, atB := bounds[k]; atB && streamingBody {
 					pos = "frame-boundary"
@@ -112,6 +132,18 @@ func c04Response(run *ev.Run, rec *recorded, key string) {
 				}
 				detail := map[string]any{"case": rec.Name, "cut": k, "of": len(body), "ending": e.name, "trailers_present": withTr, "position": pos,
 					"outcome": clientOutcome(got, true), "baseline": baseStr, "body_hex": trunc(fmt.Sprintf("%x", body), 400)}
+				// every error surfaced by any operation is coded
+				for _, oe := range append([]error{got.Err, got.CloseErr}, got.SendErrs...) {
+					if oe == nil {
+						continue
+					}
+					var oce *connect.Error
+					if !errors.As(oe, &oce) || oce.Code() == 0 {
+						detail["uncoded_error"] = oe.Error()
+						run.Violation(ckey+"/uncoded-operation-error", "an operation returned an error that is not a coded *connect.Error: "+oe.Error(), detail)
+						return
+					}
+				}
 				full := k == len(body)
 				var terminated bool
 				switch {
@@ -365,4 +397,19 @@ func c04ClientTransport(run *ev.Run, rec *recorded, key string) {
 			}
 		}
 	}
+}
+
+// c04ReplaySpurious replays a response of an in-body-terminator protocol with
+// HTTP trailers that claim success added by some intermediary.
+func c04ReplaySpurious(rec *recorded, body *wire.ScriptedBody, addTrailers bool) *svc.CLog {
+	res := *rec.Ex.Result
+	res.Trailer = nil
+	if addTrailers {
+		res.Trailer = http.Header{"Grpc-Status": {"0"}, "Grpc-Message": {""}}
+	}
+	cn := &wire.Canned{Respond: func(req *http.Request, _ []byte) (*http.Response, error) {
+		return wire.ResponseFromResult(req, &res, body), nil
+	}}
+	cs := svc.NewClientSet(cn, "http://verif.local", rec.COpts...)
+	return cs.Do(context.Background(), rec.Kind, "replay", nil, rec.Sends)
 }
